@@ -2,7 +2,7 @@
 self-block implies yield (K3, family-wide), report content (K1)."""
 from engine import kinds
 from engine.facts import Site, Slicer, norm, operand_local, control_deps, last_field
-from engine.slicing import FlowSlicer, expand_closure_labels
+from engine.slicing import FlowSlicer, expand_closure_labels, expand_fn_labels
 
 CRATES = {"shuttle_engine", "shuttle_std", "shuttle"}
 EXPLANATION = (
@@ -73,8 +73,10 @@ def r2_verdict_dependence(ctx):
     c0 = ctx.closure(E + "Execution::run_to_completion", ES + "schedule", "C03.R2")
     dl = [(s, st) for s, st in c0.assigns() if st["rv"]["k"] == "aggr" and st["rv"].get("variant") == "Deadlock"]
     if ctx.floor("C03.R2", "StepError::Deadlock construction", len(dl), 1):
-        labs = expand_closure_labels(prog, FlowSlicer(c0).guard_labels(dl[0][0]))
-        ok = any(l.endswith("Task::finished") for l in labs) and ("field:" + T + "Task.detached") in labs
+        # the predicate may live in a helper; "unfinished" may be spelled finished() or membership in live_tasks (= ids of the unfinished tasks, R1)
+        labs = expand_fn_labels(prog, FlowSlicer(c0).guard_labels(dl[0][0]))
+        unfinished = any(l.endswith("Task::finished") for l in labs) or ("field:" + E + "ExecutionState.live_tasks") in labs
+        ok = unfinished and ("field:" + T + "Task.detached") in labs
         ctx.ob("C03.R2", "deadlock-depends-on-unfinished-attached", ok, "StepError::Deadlock is raised iff some task is unfinished and not detached (predicate over Task::finished and Task.detached)", loc=c0.loc(dl[0][0]))
 
 
